@@ -1,7 +1,19 @@
-// Further propagator kinds for `plevel::post` (extended as the model grows).
+// Further propagator kinds for `plevel::post`: one module per group, each exposing
+// `pub fn post(kind: &str, t: &[&str], vars: &[VarId], props: &mut Propagators) -> bool`
+// (true = handled).  Group modules are listed in GROUPS below.
 use selen::constraints::props::Propagators;
 use selen::variables::VarId;
 
-pub fn post_ext(kind: &str, _t: &[&str], _vars: &[VarId], _props: &mut Propagators) {
+type PostFn = fn(&str, &[&str], &[VarId], &mut Propagators) -> bool;
+const GROUPS: &[PostFn] = &[
+    // group modules register here, e.g. crate::plevel_arith::post,
+];
+
+pub fn post_ext(kind: &str, t: &[&str], vars: &[VarId], props: &mut Propagators) {
+    for g in GROUPS {
+        if g(kind, t, vars, props) {
+            return;
+        }
+    }
     panic!("unknown propagator kind {}", kind)
 }
